@@ -72,7 +72,7 @@ theorem entsStep_ite {l : Live} (c : Prop) [Decidable c] (a b : Live × Obs) (ha
     (hb : EntsStep l b.1) : EntsStep l (if c then a else b).1 := by
   split <;> assumption
 
-theorem lStep_ents (l : Live) (op : Op) (hfl : opFlat op = true) (hf : fragOk l op = true) :
+theorem lStep_ents (l : Live) (op : Op) (hfl : opFlat op = true) (hf : fragOkC op = true) :
     EntsStep l (lStep l op).1 := by
   cases op with
   | «open» slot p fl =>
@@ -136,12 +136,12 @@ theorem lStep_ents (l : Live) (op : Op) (hfl : opFlat op = true) (hf : fragOk l 
       obtain ⟨l', id⟩ := r
       exact (sOpen_ents ho).congr (sWrite_ents _ _ _ _) (sWrite_next _ _ _ _)
   | dump pool => exact EntsStep.refl l
-  | mkdirAll p => simp [fragOk] at hf
-  | rmdir p => simp [fragOk] at hf
-  | rmdirAll p => simp [fragOk] at hf
-  | unlink p => simp [fragOk] at hf
-  | rename p q => simp [fragOk] at hf
-  | crash => simp [fragOk] at hf
+  | mkdirAll p => simp [fragOkC] at hf
+  | rmdir p => simp [fragOkC] at hf
+  | rmdirAll p => simp [fragOkC] at hf
+  | unlink p => simp [fragOkC] at hf
+  | rename p q => simp [fragOkC] at hf
+  | crash => simp [fragOkC] at hf
 
 theorem IdsBelow.step {l l' : Live} (h : IdsBelow l) (hs : EntsStep l l') : IdsBelow l' := by
   rcases hs with ⟨a, b⟩ | ⟨p, a, b⟩
@@ -198,9 +198,9 @@ theorem sSyncDirBoth_nil (l : Live) (sp : Spec) (p : Path) (ht : sp.touched = []
 
 /-- one step of the flat fragment: flagged and plain durable spec agree (the ghost stays empty) -/
 theorem sStepFx_c (sp : Spec) (op : Op) (ht : sp.touched = []) (hI : IdsBelow sp.l)
-    (hf : fragOk sp.l op = true) (hfl : opFlat op = true) :
+    (hf : fragOkC op = true) (hfl : opFlat op = true) :
     sStepFx fxc {} sp op {} = sStep {} sp op {} := by
-  have hnc : op ≠ .crash := fragOk_not_crash hf
+  have hnc : op ≠ .crash := fragOkC_not_crash hf
   have hl := (sStep_live sp op {} hnc).2
   have htu : touchUpd sp.l (sStep {} sp op {}).1.l sp.touched = [] := by
     rw [ht, hl]; exact touchUpd_step hI (lStep_ents sp.l op hfl hf)
@@ -222,23 +222,33 @@ theorem sStepFx_c (sp : Spec) (op : Op) (ht : sp.touched = []) (hI : IdsBelow sp
   | _ => exact key
 
 theorem flat_spec_states : ∀ (h : List Op) (sp : Spec), sp.touched = [] → IdsBelow sp.l →
-    flatRun sp.l h = true →
+    flatRunC h = true →
     sRunStFx fxc {} sp (quiet h) = sRunSt {} sp (quiet h) := by
   intro h
   induction h with
   | nil => intro sp _ _ _; rfl
   | cons op r ih =>
     intro sp ht hI hf
-    simp only [flatRun, Bool.and_eq_true] at hf
+    simp only [flatRunC, List.all_cons, Bool.and_eq_true] at hf
     obtain ⟨⟨hfo, hfl⟩, hfr⟩ := hf
-    have hnc : op ≠ .crash := fragOk_not_crash hfo
+    have hnc : op ≠ .crash := fragOkC_not_crash hfo
     have hl := (sStep_live sp op {} hnc).2
     simp only [quiet, List.map_cons, sRunStFx, sRunSt]
     rw [sStepFx_c sp op ht hI hfo hfl]
     apply ih
     · rw [sStep_touched sp op {} hnc, ht]
     · rw [hl]; exact hI.step (lStep_ents sp.l op hfl hfo)
-    · rw [hl]; exact hfr
+    · simpa [flatRunC] using hfr
+
+theorem flatRun_flatRunC : ∀ (h : List Op) (l : Live), flatRun l h = true → flatRunC h = true := by
+  intro h
+  induction h with
+  | nil => intro _ _; rfl
+  | cons op r ih =>
+    intro l hf
+    simp only [flatRun, Bool.and_eq_true] at hf
+    simp only [flatRunC, List.all_cons, Bool.and_eq_true]
+    exact ⟨⟨fragOk_fragOkC hf.1.1, hf.1.2⟩, by simpa [flatRunC] using ih _ hf.2⟩
 
 theorem flatRun_fragRun : ∀ (h : List Op) (l : Live), flatRun l h = true → fragRun l h = true := by
   intro h
@@ -274,7 +284,7 @@ theorem c07_partial_committed (h : List Op) (hf : flatRun Live.init h = true) (o
   obtain ⟨_, hD⟩ := flat_states h St.init Spec.init R_init D_init hf
   rw [runStFx_append, sRunStFx_append]
   rw [runStFx_c h St.init Live.init R_init (flatRun_fragRun h _ hf)]
-  rw [flat_spec_states h Spec.init rfl idsBelow_init hf]
+  rw [flat_spec_states h Spec.init rfl idsBelow_init (flatRun_flatRunC h _ hf)]
   -- the crash step is the same on both models; after it the log is empty
   show viewOfFx fxc (crash (runSt {} St.init (quiet h)).fs none ora.torn) [n] =
     sView (sCrash (sRunSt {} Spec.init (quiet h)) none ora.torn).l [n]
